@@ -2,36 +2,59 @@
 
 Tie: T (the hook implementations are re-translated to Lean on every run -> lean/PyrollModel/Gen/C17.lean: one `Impl` with
 ALL guarded alternatives per source item; the theorems of lean/PyrollProps/C17.lean are re-checked against them, the
-`..._every_alt` / `..._single_alt` theorems quantify over every alternative) + K (each generated formula AND each
-alternative is evaluated over Float by the Lean driver and compared with the python function it came from, driven into the
-alternative by a stub satisfying its path condition).
-Oracle (from the statement, on the real code): identities on real Profile objects; thermal identities on fresh Roll and
-Profile objects under every read order of the two derived values (hook values are cached: the order matters); coefficient
-links on solved passes, on solved passes with overridden / explicit draught, spread, elongation (as spreading plug-ins do)
-and on unsolved passes with real in/out profiles and explicitly supplied values.
+`..._every_alt` / `..._single_alt` theorems quantify over every alternative; the GEOMETRIC items - the chord methods
+`Profile.local_height/local_width`, `shapes.rectangle`, the extents of geometries, the arguments of the default
+`equivalent_rectangle` - go to Gen/C17Geo.lean (driver/translate/c17_geo.py) with the theorems of PyrollProps/C17Geo.lean:
+chords depend on the current hook values only, are chords of the cross-section, bounded, zero outside, integrate to the
+area; the default rectangle polygon has the profile's area and ratio) + K (each generated formula AND each alternative is
+evaluated over Float by the Lean driver and compared with the python function it came from, driven into the alternative by
+a stub satisfying its path condition; the geometry terms are interpreted with shapely by an independent evaluator and
+compared with the real methods on real profiles, rectangle corners / bounds / extents / shoelace area over Float with the
+real `rectangle(w, h)`).
+Oracle (from the statement, on the real code): identities on real Profile objects (stresses at every level / unit, values
+or hook functions; width / height given instead of derived); thermal identities on fresh Roll and Profile objects under
+every read order of the two derived values (hook values are cached: the order matters); coefficient links on solved
+passes, on solved passes with overridden / explicit draught, spread, elongation (as spreading plug-ins do), with an
+equivalent rectangle / width / height supplied by hook functions on the pass's profile classes or explicitly on the
+profiles, and on unsolved passes with real in/out profiles and explicitly supplied values; USED objects: a profile that is
+sampled, given another cross-section / scaled / copied / rebuilt and sampled again (also at the earlier positions), a pass
+that is solved, changed (gap, incoming profile) and solved again - chords and coefficient links after every step.
 """
 import math
 
-from ..translate import gen, c17_alts
+from ..translate import gen, c17_alts, c17_geo
 from .. import stub
 
 ID = "C17"
-LEAN_MODULES = ["PyrollProps.C17"]
+LEAN_MODULES = ["PyrollProps.C17", "PyrollProps.C17Geo"]
 MODEL = "c17"
-MODEL_MODULES = ["PyrollModel.Gen.C17", "PyrollModel.EvalDriver"]
+MODEL_MODULES = ["PyrollModel.Gen.C17", "PyrollModel.Gen.C17Geo", "PyrollModel.EvalDriver"]
 RULE = ("(a) every translated formula and every guarded alternative x random positive environments, Lean Float evaluation vs "
-        "the python function (driven into the alternative by a stub satisfying its path condition); "
+        "the python function (driven into the alternative by a stub satisfying its path condition); the translated chord "
+        "methods / rectangle / extents vs the real methods on real profiles and polygons; "
         "(b) stand-alone real Profile objects with random principal stresses / material data / shapes, derived hooks read in a "
-        "random order, and the identities of the property checked directly; (c) chords of random convex and non-convex "
-        "polygons integrated numerically; (c2) thermal identities on fresh Roll and Profile objects for material triples over "
-        "several decades x every read order of the two derived values (incl. cache re-evaluation and one value supplied "
-        "explicitly); (d) solved roll passes; (e) solved two-/three-roll passes whose draught/spread/elongation is overridden "
-        "by an extra hook implementation on a throw-away subclass or an explicit value, and unsolved passes with real in/out "
-        "profiles (draught below and above 1) and explicitly supplied coefficient values: every link between the 13 coefficient "
-        "hooks, read in a random order. non-trivial = the case has all-different non-zero inputs; distinct by rounded input tuple.")
+        "random order, and the identities of the property checked directly; (b3) the same with width / height assigned; "
+        "(c) chords of random convex and non-convex polygons: compared with the chord of the cross-section itself (shrunk / "
+        "grown by 1e-9 of the size), bounded, zero outside, integrated numerically; (c2) thermal identities on fresh Roll and "
+        "Profile objects for material triples over several decades x every read order of the two derived values (incl. cache "
+        "re-evaluation, one value supplied explicitly, constants supplied by hook functions); (c3) stress triples at levels "
+        "1e-3 .. 3e9 (general, hydrostatic, uniaxial, nearly hydrostatic, two equal), values or hook functions; "
+        "(d) solved roll passes; (e) solved two-/three-roll passes whose draught/spread/elongation is overridden by an extra "
+        "hook implementation on a throw-away subclass or an explicit value, and/or whose in / out profile classes get an "
+        "equivalent_rectangle / equivalent_width / equivalent_height hook function, and unsolved passes with real in/out "
+        "profiles (draught below and above 1; explicit rectangle / sides on the profiles) and explicitly supplied coefficient "
+        "values: every link between the 13 coefficient hooks, read in a random order; (f) histories: profile sampled / new "
+        "cross-section / scaled / re-evaluated / deep-copied / rebuilt / sampled again, pass solved 2-3 times with another gap "
+        "or incoming profile, incoming profile sampled before it is handed to solve. non-trivial = the case has all-different "
+        "non-zero inputs resp. a state-changing operation; distinct by rounded input tuple.")
 ASSUMPTIONS = [
     "IEEE rounding: identities are theorems over the reals; on floats they are checked with rtol 1e-9",
-    "shapely area/bounds/intersection are parameters: chord identities are checked numerically only (partial)",
+    "shapely is a parameter of the chord / rectangle theorems: `buffer` is an arbitrary function (the theorems ask for "
+    "cross-section <= buffer(cross-section) <= T), `intersection` is set intersection, `.length` the 1-dimensional Hausdorff "
+    "measure, `bounds` / `area` of a polygon the coordinate ranges / shoelace sum of its corners, `Polygon(points)` the corner "
+    "list; on the real geometry the chord clauses are checked numerically",
+    "the cross-section lies within |y| <= height, |z| <= width (reach of the probing line of local_height / local_width): "
+    "explicit hypothesis of the chord theorems, true for sections centred on the origin",
 ]
 
 P = "profile/hookimpls.py"
@@ -84,6 +107,8 @@ def translate(ctx):
     ctx.c17_changed = c17_alts.changed_items(ID, SELECTION, ctx.found, baseline, OBLIGATIONS)
     if ctx.c17_changed:
         ctx.notes["source_items_changed_since_committed_translation"] = ctx.c17_changed
+    # the geometric items: chord methods, shapes.rectangle, extents of geometries, equivalent_rectangle -> Gen/C17Geo.lean
+    ctx.c17_geo = c17_geo.emit(ctx)
 
 
 def _sampler(rng, var):
@@ -152,18 +177,28 @@ THERMAL_CORPUS = [(23.0, 7500.0, 690.0), (50.0, 7850.0, 460.0), (0.5, 2.0, 3.0),
 
 def _thermal_problems(spec):
     """the thermal identities of the statement on one fresh object; spec = {host, k, rho, c, order} -> [(key, what)]"""
-    from pyroll.core import Roll, Profile, BoxGroove
+    from pyroll.core import Roll, BoxGroove
+    from pyroll.core.profile.profile import RoundProfile
     host, lam, rho, c, order = spec["host"], spec["k"], spec["rho"], spec["c"], spec["order"]
     kw = dict(thermal_conductivity=lam, density=rho, specific_heat_capacity=c)
     if "set-a" in order:
         kw["thermal_diffusivity"] = lam / (rho * c)
     if "set-b" in order:
         kw["heat_penetration_number"] = math.sqrt(lam * rho * c)
+    rcls, pcls = Roll, RoundProfile
+    if spec.get("via") == "hooks":
+        # the three material constants come from hook functions (as a material data base plug-in supplies them) instead
+        # of constructor values; registered on a throw-away subclass, nothing to undo on the core classes
+        rcls, pcls = type("C17Roll", (Roll,), {}), type("C17RoundProfile", (RoundProfile,), {})
+        for n in ("thermal_conductivity", "density", "specific_heat_capacity"):
+            v = kw.pop(n)
+            for cls in (rcls, pcls):
+                getattr(cls, n)(lambda self, v=v: v)
     if host == "roll":
-        obj = Roll(groove=BoxGroove(r1=1e-3, r2=2e-3, depth=5e-3, usable_width=20e-3, ground_width=15e-3),
+        obj = rcls(groove=BoxGroove(r1=1e-3, r2=2e-3, depth=5e-3, usable_width=20e-3, ground_width=15e-3),
                    nominal_radius=0.1, **kw)
     else:
-        obj = Profile.round(radius=0.01, **kw)
+        obj = pcls(radius=0.01, **kw)
     reads = {"a": [], "b": []}
     try:
         for step in order:
@@ -200,15 +235,96 @@ def _run_thermal(ctx):
     for _ in range(ctx.budget(10, 300)):
         # several decades each; rho*c far from 1 in general (the identities are scale-free)
         triples.append((10 ** rng.uniform(-2, 3), 10 ** rng.uniform(-1, 4.5), 10 ** rng.uniform(-1, 4)))
-    for (lam, rho, c) in triples:
+    for it, (lam, rho, c) in enumerate(triples):
         for host in ("roll", "profile"):
             for order in THERMAL_MODES:
-                spec = {"host": host, "k": lam, "rho": rho, "c": c, "order": list(order)}
-                ctx.case(["thermal", host, round(lam, 9), round(rho, 9), round(c, 9), order],
+                spec = {"host": host, "k": lam, "rho": rho, "c": c, "order": list(order),
+                        "via": "hooks" if it % 3 == 2 else "kwargs"}
+                ctx.case(["thermal", host, spec["via"], round(lam, 9), round(rho, 9), round(c, 9), order],
                          nontrivial=len(order) > 1 and len({lam, rho, c}) == 3)
                 ctx.count("thermal:" + host)
+                ctx.count("thermal-via:" + spec["via"])
                 for key, what in _thermal_problems(spec):
                     ctx.violation(key, what, {"kind": "thermal", **spec})
+
+
+# ---- principal stresses: any unit (Pa, MPa), supplied as values or by hook functions -------------------------------------
+def _stress_problems(spec):
+    """spec = {stresses: [longitudinal, altitudinal, latitudinal], via: kwargs | hooks, order: [hook names]} ->
+    [(key, what)].  Tolerance relative to the LEVEL of the stresses (the identities are homogeneous of degree 1; the
+    implementation's sum of squared differences is exact for equal stresses and loses a few ulp otherwise)."""
+    import itertools
+    from pyroll.core.profile.profile import RoundProfile
+    names = ("longitudinal_stress", "altitudinal_stress", "latitudinal_stress")
+
+    def mk(tr):
+        if spec["via"] == "hooks":
+            cls = type("C17RoundProfile", (RoundProfile,), {})
+            for n, v in zip(names, tr):
+                getattr(cls, n)(lambda self, v=v: v)
+            return cls(radius=0.01)
+        return RoundProfile(radius=0.01, **dict(zip(names, tr)))
+
+    a, b, c = spec["stresses"]
+    level = max(abs(a), abs(b), abs(c))
+    tol = 1e-9 * level
+    probs = []
+    try:
+        p = mk((a, b, c))
+        vals = {n: float(getattr(p, n)) for n in spec["order"]}
+        hs, es = vals["hydrostatic_stress"], vals["equivalent_stress"]
+        perms = [(t, float(mk(t).equivalent_stress)) for t in sorted(set(itertools.permutations((a, b, c))))]
+    except Exception as ex:
+        if _impl_raised(ex):
+            return [("stress-hook-raises", f"{type(ex).__name__}: {ex}")]
+        raise
+    if not abs(hs - (a + b + c) / 3) <= tol:
+        probs.append(("hydrostatic-mean", f"hydrostatic_stress={hs!r} != mean {(a + b + c) / 3!r}"))
+    vm = math.sqrt(0.5 * ((a - b) ** 2 + (b - c) ** 2 + (c - a) ** 2))
+    if not abs(es - vm) <= tol:
+        probs.append(("von-mises-value", f"equivalent_stress={es!r} != von Mises value {vm!r} of {spec['stresses']}"))
+    for t, e in perms:
+        if not abs(e - es) <= tol:
+            probs.append(("von-mises-permutation", f"equivalent_stress {e!r} for {t} but {es!r} for {(a, b, c)}"))
+            break
+    if a == b == c and not abs(es) <= tol:
+        probs.append(("von-mises-hydrostatic", f"hydrostatic state {a!r} gives equivalent_stress={es!r}"))
+    nz = [x for x in (a, b, c) if x != 0]
+    if len(nz) == 1 and not abs(es - abs(nz[0])) <= tol:
+        probs.append(("von-mises-uniaxial", f"uniaxial state {nz[0]!r} gives equivalent_stress={es!r}"))
+    return probs
+
+
+def _run_stress(ctx):
+    rng = ctx.rng
+    for i in range(ctx.budget(60, 2500)):
+        level = 10 ** rng.uniform(-3, 9.5) * rng.choice([-1, 1])
+        kind = ["general", "hydrostatic", "uniaxial", "nearly-hydrostatic", "two-equal"][i % 5]
+        if kind == "general":
+            tr = [level * rng.uniform(-1, 1) for _ in range(3)]
+        elif kind == "hydrostatic":
+            tr = [level] * 3                                       # any level: not only 'round' numbers
+        elif kind == "uniaxial":
+            tr = [0.0, 0.0, 0.0]
+            tr[rng.randrange(3)] = level
+        elif kind == "nearly-hydrostatic":
+            tr = [level] * 3
+            tr[rng.randrange(3)] = level * (1 + rng.choice([-1, 1]) * 10 ** rng.uniform(-7, -2))
+        else:
+            x = level * rng.uniform(-1, 1)
+            tr = [level, level, x]
+            rng.shuffle(tr)
+        order = ["hydrostatic_stress", "equivalent_stress"]
+        rng.shuffle(order)
+        spec = {"kind": "stress", "stresses": tr, "via": "hooks" if i % 4 == 3 else "kwargs", "order": order}
+        ctx.case(["stress", kind, spec["via"], [float("%.9g" % x) for x in tr]], nontrivial=len(set(tr)) > 1 or kind == "hydrostatic")
+        ctx.count("stress:" + kind)
+        ctx.count("stress-via:" + spec["via"])
+        seen = set()
+        for key, what in _stress_problems(spec):
+            if key not in seen:
+                seen.add(key)
+                ctx.violation(key, what, spec)
 
 
 # ---- roll passes: links between the coefficient hooks, from the pass's own point of view ----------------------------
@@ -223,6 +339,34 @@ def _model_fn(model, par):
     if model == "draught-power":
         return lambda self: self.draught ** par
     raise ValueError(model)
+
+
+# equivalent rectangle / width / height supplied by somebody else than the core (hook function or explicit value): the
+# statement's links between the coefficients of a pass must hold whatever rectangle the profiles report
+AREA_PRESERVING = ("rect-keep-width", "rect-keep-height", "rect-skewed")
+PROFILE_MODELS = {"equivalent_rectangle": ("rect-keep-width", "rect-keep-height", "rect-skewed", "rect-bounding"),
+                  "equivalent_width": ("scaled-default",), "equivalent_height": ("scaled-default",)}
+
+
+def _profile_model_fn(model, par):
+    from pyroll.core.shapes import rectangle
+    if model == "rect-keep-width":          # the profile's width and area (instead of its width-to-height ratio)
+        return lambda self: rectangle(self.width, self.cross_section.area / self.width)
+    if model == "rect-keep-height":
+        return lambda self: rectangle(self.cross_section.area / self.height, self.height)
+    if model == "rect-skewed":              # area kept, ratio changed by par^2
+        return lambda self: rectangle(self.equivalent_width * par, self.equivalent_height / par)
+    if model == "rect-bounding":            # (scaled) bounding box: neither area nor the default sides
+        return lambda self: rectangle(self.width * par, self.height * par)
+    if model == "scaled-default":           # for equivalent_width / equivalent_height: the rectangle follows them
+        import numpy as np
+        return lambda self: par * np.sqrt(self.cross_section.area)
+    raise ValueError(model)
+
+
+def _profile_hooks_preserve_area(ps):
+    return all(h == "equivalent_rectangle" and m in AREA_PRESERVING
+               for side in ps.get("profile_hooks", {}).values() for h, (m, _) in side.items())
 
 
 def _build_pass(ps):
@@ -246,6 +390,15 @@ def _build_pass(ps):
     sub = type("C17" + base.__name__, (base,), {})
     for hook, (model, par) in sorted(ps.get("hooks", {}).items()):
         getattr(sub, hook)(_model_fn(model, par))
+    # hook implementations on the pass's in / out profile classes (what equivalent-flat-pass plug-ins register), again on
+    # throw-away subclasses: Unit.init_solve instantiates `self.InProfile` / `self.OutProfile`
+    for side, attr in (("in", "InProfile"), ("out", "OutProfile")):
+        hooks = ps.get("profile_hooks", {}).get(side)
+        if hooks:
+            pcls = type(attr, (getattr(base, attr),), {})
+            setattr(sub, attr, pcls)
+            for hook, (model, par) in sorted(hooks.items()):
+                getattr(pcls, hook)(_profile_model_fn(model, par))
     kw.update(ps.get("explicit", {}))
     return sub(label="c17", roll=Roll(groove=g, nominal_radius=160e-3 * s, rotational_frequency=1), **kw)
 
@@ -256,8 +409,14 @@ def _pass_spec(rng, three):
 
 
 def _mk_profile(spec):
+    """profile spec -> real Profile; "explicit": values the user supplies for hooks that usually default to others
+    (equivalent_rectangle as [width, height])"""
     from pyroll.core import Profile
-    return getattr(Profile, spec["kind"])(**spec["args"])
+    from pyroll.core.shapes import rectangle
+    kw = {}
+    for n, v in spec.get("explicit", {}).items():
+        kw[n] = rectangle(*v) if n == "equivalent_rectangle" else v
+    return getattr(Profile, spec["kind"])(**spec["args"], **kw)
 
 
 def _pass_link_problems(rp, order, overridden, volume_conserved, plain_sum):
@@ -328,19 +487,50 @@ def _override_problems(spec):
     overridden = set(spec["pass"].get("hooks", {})) | set(spec["pass"].get("explicit", {}))
     try:
         # volume: out length comes from the pass's OWN elongation, lengths are exact up to rounding
-        return _pass_link_problems(rp, spec["order"], overridden, 1e-6, True)
+        # (log coefficients sum to zero only where the rectangles the profiles report carry the areas)
+        return _pass_link_problems(rp, spec["order"], overridden, 1e-6, _profile_hooks_preserve_area(spec["pass"]))
     except Exception as ex:
         if _impl_raised(ex):
             return [("pass-hook-raises", f"{type(ex).__name__}: {ex}")]
         raise
 
 
+def _rand_profile_hooks(rng, mode):
+    """hook functions for the in / out profile classes of a pass: mode in none | out-rect | in-rect | both-rect | sides"""
+    def rect():
+        m = rng.choice(PROFILE_MODELS["equivalent_rectangle"])
+        return (m, rng.uniform(0.7, 1.4) if m == "rect-skewed" else rng.uniform(0.6, 1.0))
+    if mode == "out-rect":
+        return {"out": {"equivalent_rectangle": rect()}}
+    if mode == "in-rect":
+        return {"in": {"equivalent_rectangle": rect()}}
+    if mode == "both-rect":
+        return {"in": {"equivalent_rectangle": rect()}, "out": {"equivalent_rectangle": rect()}}
+    if mode == "sides":                 # equivalent_width / equivalent_height replaced: the default rectangle follows them
+        out = {}
+        for side in ("in", "out"):
+            hk = {}
+            if rng.random() < 0.7:
+                hk["equivalent_width"] = ("scaled-default", rng.uniform(0.8, 1.6))
+            if rng.random() < 0.7:
+                hk["equivalent_height"] = ("scaled-default", rng.uniform(0.5, 1.2))
+            if hk:
+                out[side] = hk
+        return out
+    return {}
+
+
+PROFILE_HOOK_MODES = ["none", "out-rect", "both-rect", "sides", "in-rect"]
+
+
 def _run_override_passes(ctx):
     rng = ctx.rng
-    n = ctx.budget(24, 400)
+    n = ctx.budget(30, 500)
     for i in range(n):
         three = i % 3 == 2
         ps = _pass_spec(rng, three)
+        pmode = PROFILE_HOOK_MODES[i % 5]
+        ps["profile_hooks"] = _rand_profile_hooks(rng, pmode)
         mode = ["hook-spread", "hook-elongation", "hook-draught", "explicit-spread", "explicit-draught",
                 "explicit-elongation", "hook-spread+explicit-draught", "plain"][i % 8]
         hooks, explicit = {}, {}
@@ -365,10 +555,11 @@ def _run_override_passes(ctx):
         if probs is None:
             ctx.count("override-pass:not-solvable")
             continue
-        ctx.case(["override-pass", mode, three, ps["groove"], round(ps["scale"], 6), round(spec["in_size"], 9)],
-                 nontrivial=mode != "plain")
+        ctx.case(["override-pass", mode, pmode, three, ps["groove"], round(ps["scale"], 6), round(spec["in_size"], 9)],
+                 nontrivial=mode != "plain" or pmode != "none")
         ctx.count("override-pass:" + ("three-roll" if three else "two-roll"))
         ctx.count("override-pass-mode:" + mode)
+        ctx.count("override-pass-profile-hooks:" + pmode)
         for key, what in probs:
             ctx.violation(key, what, {"kind": "override-pass", **spec})
 
@@ -387,7 +578,9 @@ def _stub_problems(spec):
         setattr(rp, n, v)
     overridden = set(spec["explicit"]) | set(spec["pass"].get("hooks", {}))
     try:
-        return _pass_link_problems(rp, spec["order"], overridden, 1e-9 if spec["volume_conserved"] else 0, True)
+        plain = (not spec["in"].get("explicit") and not spec["out"].get("explicit")
+                 and _profile_hooks_preserve_area(spec["pass"]))
+        return _pass_link_problems(rp, spec["order"], overridden, 1e-9 if spec["volume_conserved"] else 0, plain)
     except Exception as ex:
         if _impl_raised(ex):
             return [("pass-hook-raises", f"{type(ex).__name__}: {ex}")]
@@ -438,6 +631,15 @@ def _run_stub_passes(ctx):
         vol = rng.random() < 0.7
         sp_in["args"]["length"] = l_in
         sp_out["args"]["length"] = l_in * a_in / a_out if vol else l_in * math.exp(rng.uniform(-0.5, 0.5))
+        # explicit values on the PROFILES for what usually defaults to other values: the rectangle itself, or one / both
+        # of its sides (the pass must take whatever the profiles report, consistently in all 13 hooks)
+        pm = (i // 3) % 4
+        for sp, sz in ((sp_in, size), (sp_out, size * math.sqrt(a_out / a_in))):
+            if pm == 1 or (pm == 3 and rng.random() < 0.5):
+                sp["explicit"] = {"equivalent_rectangle": [sz * rng.uniform(0.5, 1.5), sz * rng.uniform(0.5, 1.5)]}
+            elif pm == 2:
+                sp["explicit"] = {n: sz * rng.uniform(0.5, 1.5) for n in ("equivalent_width", "equivalent_height")
+                                  if rng.random() < 0.7}
         order = list(PASS_HOOKS)
         rng.shuffle(order)
         spec = {"pass": ps, "in": sp_in, "out": sp_out, "explicit": explicit, "order": order, "volume_conserved": vol}
@@ -449,8 +651,360 @@ def _run_stub_passes(ctx):
                  nontrivial=True)
         ctx.count("stub-pass:" + ("draught>1" if a_out > a_in else "draught<1"))
         ctx.count("stub-pass:explicit=%d" % min(len(explicit), 3))
+        ctx.count("stub-pass:profile-explicit=" + "+".join(sorted(set(sp_in.get("explicit", {}))
+                                                                  | set(sp_out.get("explicit", {})))))
         for key, what in probs:
             ctx.violation(key, what, {"kind": "stub-pass", **spec})
+
+
+# ---- chords: local_height / local_width against the cross-section the profile has NOW ---------------------------------
+def _chord_problems(p, n=161, bound_by_hooks=True, again=None, used=None):
+    """The statement's clauses about local heights and widths, on the profile as it is at this moment:
+      * they are chords of the cross-section: local_height(z) is the length of {y : (z, y) in cross-section};
+      * bounded by the overall height / width;  * zero outside the cross-section;  * they integrate to the area.
+    -> [(clause, text)].  Tolerances: chords of nested regions are nested, so a chord must lie between the chord of the
+    cross-section shrunk and grown by delta = 1e-9 * size (the implementation grows it by 1e-12 * size on purpose, to
+    keep chords lying on the boundary); midpoint rule on n points of a piecewise smooth chord function: a few / n
+    relative.  `again` = {method name: positions queried on this object earlier}: they are queried again (a chord is a
+    function of the position and the PRESENT cross-section); `used` (a dict) receives some of the positions queried now."""
+    import numpy as np
+    from shapely.geometry import LineString
+    cs = p.cross_section
+    zmin, ymin, zmax, ymax = cs.bounds
+    W, H, A = zmax - zmin, ymax - ymin, float(cs.area)
+    delta = atol = 1e-9 * (W + H)
+    lo_reg, hi_reg = cs.buffer(-delta), cs.buffer(delta)
+    big = 10 * max(W, H, abs(zmin), abs(zmax), abs(ymin), abs(ymax))
+    probs = []
+
+    def side(name, fn, a0, ext, other_lo, overall, line):
+        xs = a0 + (np.arange(n) + 0.5) * ext / n
+        v = np.array([float(fn(x)) for x in xs])
+        lo = np.array([line(x).intersection(lo_reg).length for x in xs])
+        hi = np.array([line(x).intersection(hi_reg).length for x in xs])
+        bad = (v < lo - atol) | (v > hi + atol)
+        if bad.any():
+            k = int(np.argmax(np.maximum(lo - v, v - hi)))
+            probs.append(("mismatch", f"{name}({float(xs[k])!r}) = {float(v[k])!r}, the chord of the cross-section there is "
+                          f"{float(lo[k])!r}..{float(hi[k])!r} ({int(bad.sum())} of {n} sample positions differ)"))
+        for x in (again or {}).get(name, []):
+            o = float(fn(x))
+            l_, h_ = line(x).intersection(lo_reg).length, line(x).intersection(hi_reg).length
+            if o < l_ - atol or o > h_ + atol:
+                probs.append(("mismatch", f"{name}({float(x)!r}) = {o!r} (a position queried before on this object), the "
+                              f"chord of the cross-section there is {float(l_)!r}..{float(h_)!r}"))
+                break
+        if used is not None:
+            used[name] = [float(x) for x in xs[:: max(1, n // 12)]]
+        if bound_by_hooks and (v > overall * (1 + 1e-9) + atol).any():
+            probs.append(("exceeds-extent", f"{name} reaches {float(v.max())!r}, more than the overall "
+                          f"{'height' if name == 'local_height' else 'width'} {overall!r}"))
+        integ = float(v.sum() * ext / n)
+        if _rel(integ, A) > 3e-2:
+            probs.append(("integral", f"{name} integrates to {integ!r}, the area is {A!r}"))
+        for x in (a0 - 0.3 * ext, a0 - 0.02 * ext, a0 + 1.02 * ext, a0 + 1.3 * ext):
+            o = float(fn(x))
+            if abs(o) > atol:
+                probs.append(("nonzero-outside", f"{name}({float(x)!r}) = {o!r} outside the cross-section "
+                              f"(which spans {float(a0)!r}..{float(a0 + ext)!r})"))
+                break
+
+    side("local_height", p.local_height, zmin, W, ymin, float(p.height), lambda z: LineString([(z, -big), (z, big)]))
+    side("local_width", p.local_width, ymin, H, zmin, float(p.width), lambda y: LineString([(-big, y), (big, y)]))
+    return probs
+
+
+def _star_points(rng, sc):
+    """non-convex star polygon with alternating radii, bounding box centred on the origin -> point list or None"""
+    from shapely.geometry import Polygon
+    from shapely.affinity import translate as _tr
+    n = rng.randrange(5, 12)
+    pts = []
+    for k in range(n):
+        ang = 2 * math.pi * k / n + rng.uniform(-0.2, 0.2) / n
+        rad = sc * (rng.uniform(0.35, 0.6) if k % 2 else rng.uniform(0.8, 1.0))
+        pts.append((rad * math.cos(ang), rad * math.sin(ang)))
+    poly = Polygon(pts)
+    if not poly.is_valid or poly.is_empty:
+        return None
+    b = poly.bounds
+    poly = _tr(poly, xoff=-(b[0] + b[2]) / 2, yoff=-(b[1] + b[3]) / 2)
+    return [list(c) for c in poly.exterior.coords]
+
+
+def _rand_shape_spec(rng, size):
+    """shape spec = factory profile (kind/args) or a non-convex polygon (kind polygon / points)"""
+    if rng.random() < 0.3:
+        pts = _star_points(rng, size / 2)
+        if pts:
+            return {"kind": "polygon", "points": pts}
+    return _rand_profile_spec(rng, size)
+
+
+def _shape_profile(spec):
+    from pyroll.core import Profile
+    from shapely.geometry import Polygon
+    if spec["kind"] == "polygon":
+        return Profile.from_polygon(Polygon(spec["points"]), classifiers={"star"})
+    return _mk_profile(spec)
+
+
+# ---- equivalent rectangle / radius where width and height are GIVEN (not the bounding box of the cross-section) -----------
+def _rect_problems(spec):
+    """spec = {shape: shape spec, set: {height?, width?} (assigned to the hooks after construction), order} -> [(key, what)]
+    The statement: the equivalent rectangle has the profile's area and ITS width-to-height ratio (the profile's width and
+    height hooks, whoever supplies them), the equivalent radius the area."""
+    p = _shape_profile(spec["shape"])
+    try:
+        for n, v in spec["set"].items():
+            setattr(p, n, v)
+        p.reevaluate_cache()
+        for n in spec["order"]:
+            getattr(p, n)
+        A, w, h = float(p.cross_section.area), float(p.width), float(p.height)
+        ew, eh, er = float(p.equivalent_width), float(p.equivalent_height), float(p.equivalent_radius)
+        rect = p.equivalent_rectangle
+        ra, rw, rh = float(rect.area), float(rect.width), float(rect.height)
+    except Exception as ex:
+        if _impl_raised(ex):
+            return [("profile-hook-raises", f"{type(ex).__name__}: {ex}")]
+        raise
+    probs, tol = [], 1e-9
+    if _rel(ew * eh, A) > tol:
+        probs.append(("equivalent-rectangle-area", f"equivalent_width*equivalent_height={ew * eh!r} != area {A!r}"))
+    if _rel(ew / eh, w / h) > tol:
+        probs.append(("equivalent-rectangle-ratio", f"equivalent_width/equivalent_height={ew / eh!r} != width/height="
+                      f"{w / h!r} (width={w!r}, height={h!r})"))
+    if _rel(math.pi * er ** 2, A) > tol:
+        probs.append(("equivalent-radius-area", f"pi*equivalent_radius^2={math.pi * er ** 2!r} != area {A!r}"))
+    if _rel(ra, A) > 1e-7 or _rel(rw / rh, w / h) > 1e-7:
+        probs.append(("equivalent-rectangle-shape", f"equivalent_rectangle polygon: area {ra!r} (profile {A!r}), "
+                      f"width/height {rw / rh!r} (profile {w / h!r})"))
+    return probs
+
+
+def _run_rect(ctx):
+    rng = ctx.rng
+    hooks = ["equivalent_width", "equivalent_height", "equivalent_radius", "equivalent_rectangle"]
+    for i in range(ctx.budget(30, 800)):
+        size = math.exp(rng.uniform(-6, 2))
+        shape = _rand_shape_spec(rng, size)
+        st = {}
+        m = i % 4
+        if m in (1, 3):
+            st["height"] = size * rng.uniform(0.3, 3)
+        if m in (2, 3):
+            st["width"] = size * rng.uniform(0.3, 3)
+        order = list(hooks)
+        rng.shuffle(order)
+        spec = {"kind": "rectangle", "shape": shape, "set": st, "order": order}
+        try:
+            probs = _rect_problems(spec)
+        except (ValueError, RuntimeError) as ex:
+            if _impl_raised(ex):
+                ctx.count("rectangle:shape-rejected")
+                continue
+            raise
+        ctx.case(["rectangle", shape["kind"], round(size, 9), sorted(st), order[0]], nontrivial=bool(st))
+        ctx.count("rectangle:set=" + "+".join(sorted(st)))
+        for key, what in probs:
+            ctx.violation(key, what, spec)
+
+
+# ---- used objects: the same profile sampled, given another cross-section, copied, rebuilt, sampled again -------------------
+# Every `sample` checks the clauses against the cross-section the profile has at that moment: whatever a profile kept
+# from an earlier call (or a copy inherited from its original) must not show.
+def _history_problems(spec):
+    """spec = {start: shape spec, ops: [[sample] | [set-cross-section, shape spec] | [scale, f] | [reevaluate] |
+    [deepcopy] | [rebuild]]} -> [(key, what)]"""
+    import copy
+    from pyroll.core import Profile
+    from shapely.affinity import scale as _scale
+    p = _shape_profile(spec["start"])
+    probs, used, changed, positions = [], False, False, {}
+    for i, op in enumerate(spec["ops"]):
+        try:
+            if op[0] == "sample":
+                prefix = "used-profile-chord-" if (used and changed) else "chord-"
+                now = {}
+                for clause, what in _chord_problems(p, again=positions, used=now):
+                    probs.append((prefix + clause, f"after {spec['ops'][:i]}: {what}"))
+                positions = now
+                used = True
+                if probs:
+                    return probs
+            elif op[0] == "set-cross-section":
+                # a HookHost attribute may be assigned; derived values are refreshed by reevaluate_cache() (as Unit.solve
+                # does for the out profile of a pass between iterations)
+                p.cross_section = _shape_profile(op[1]).cross_section
+                p.reevaluate_cache()
+                changed = True
+            elif op[0] == "scale":
+                p.cross_section = _scale(p.cross_section, op[1], op[1], origin=(0, 0))
+                p.reevaluate_cache()
+                changed = True
+            elif op[0] == "reevaluate":
+                p.reevaluate_cache()
+            elif op[0] == "deepcopy":
+                p = copy.deepcopy(p)
+            elif op[0] == "rebuild":     # the way Unit.solve hands a profile on: public attributes only
+                p = Profile(**{k: v for k, v in p.__dict__.items() if not k.startswith("_")})
+            else:
+                raise ValueError(op)
+        except Exception as ex:
+            if _impl_raised(ex):
+                return [("used-profile-raises", f"op #{i} {op[0]}: {type(ex).__name__}: {ex}")]
+            raise
+    return probs
+
+
+def _shrink_history(spec, key):
+    """drop operations one at a time while the same key is still reported"""
+    ops = list(spec["ops"])
+    i = 0
+    while i < len(ops) - 1:
+        trial = dict(spec, ops=ops[:i] + ops[i + 1:])
+        if any(k == key for k, _ in _history_problems(trial)):
+            ops = trial["ops"]
+        else:
+            i += 1
+    return dict(spec, ops=ops)
+
+
+def _run_chord_histories(ctx):
+    rng = ctx.rng
+    for i in range(ctx.budget(14, 400)):
+        size = math.exp(rng.uniform(-5, 1))
+        spec = {"kind": "chord-history", "start": _rand_shape_spec(rng, size), "ops": []}
+        ops = spec["ops"]
+        if rng.random() < 0.85:
+            ops.append(["sample"])                      # the object is USED before it changes
+        for _ in range(rng.randrange(1, 4)):
+            r = rng.random()
+            if r < 0.45:
+                ops.append(["set-cross-section", _rand_shape_spec(rng, size * math.exp(rng.uniform(-1.2, 1.2)))])
+            elif r < 0.6:
+                ops.append(["scale", math.exp(rng.choice([-1, 1]) * rng.uniform(0.2, 1.5))])
+            elif r < 0.7:
+                ops.append(["reevaluate"])
+            elif r < 0.85:
+                ops.append(["deepcopy"])
+            else:
+                ops.append(["rebuild"])
+            if rng.random() < 0.5:
+                ops.append(["sample"])
+        if ops[-1] != ["sample"]:
+            ops.append(["sample"])
+        try:
+            probs = _history_problems(spec)
+        except Exception as ex:
+            if isinstance(ex, (ValueError, RuntimeError)) and not _impl_raised(ex):
+                ctx.count("chord-history:shape-rejected")
+                continue
+            raise
+        ctx.case(["chord-history", spec["start"]["kind"], round(size, 9), [o[0] for o in ops]],
+                 nontrivial=any(o[0] in ("set-cross-section", "scale") for o in ops))
+        for o in ops:
+            ctx.count("chord-history-op:" + o[0])
+        seen = set()
+        for key, what in probs:
+            if key in seen:
+                continue
+            seen.add(key)
+            small = _shrink_history(spec, key)
+            what2 = next((w for k, w in _history_problems(small) if k == key), what)
+            ctx.violation(key, what2, small)
+
+
+# ---- used passes: solved, changed (gap / incoming profile), solved again -------------------------------------------------
+# The out profile object of a pass is reused by later solves; the pass's own hook values are re-evaluated. After EVERY
+# solve the links between the 13 coefficient hooks and the chord clauses on the in and out profile must hold for the
+# state the pass has then.
+def _resolve_problems(spec):
+    """spec = {pass, steps: [{in_kind, in_size, gapf | None, pre_sample}], order} -> [(key, what)] or None (first solve
+    impossible)"""
+    from .common import make_in_profile
+    ps = spec["pass"]
+    try:
+        rp = _build_pass(ps)
+    except Exception as ex:
+        if _impl_raised(ex) or isinstance(ex, (ValueError, RuntimeError)):
+            return None
+        raise
+    overridden = set(ps.get("hooks", {})) | set(ps.get("explicit", {}))
+    plain = _profile_hooks_preserve_area(ps)
+    probs, out_positions = [], {}
+    for k, st in enumerate(spec["steps"]):
+        pre = "" if k == 0 else "resolved-"
+        when = f"solve #{k + 1} ({st})"
+        try:
+            ip = make_in_profile(None, st["in_kind"], size=st["in_size"])
+            if st.get("pre_sample"):        # the incoming profile object is used before it is handed to solve
+                for clause, what in _chord_problems(ip, n=41):
+                    probs.append(("chord-" + clause, f"{when}, incoming profile before solve: {what}"))
+            if st.get("gapf") is not None and not ps["three"]:
+                rp.gap = 2e-3 * ps["scale"] * st["gapf"]
+            rp.solve(ip)
+        except Exception as ex:
+            if _impl_raised(ex) or isinstance(ex, (ValueError, RuntimeError)):
+                return None if k == 0 else probs      # not solvable: not a matter of this property
+            raise
+        try:
+            for key, what in _pass_link_problems(rp, spec["order"], overridden, 1e-6, plain):
+                probs.append((pre + key, f"{when}: {what}"))
+            targets = [("in profile", rp.in_profile), ("out profile", rp.out_profile)]
+            if st.get("pre_sample"):
+                targets.append(("incoming profile after solve", ip))
+            for name, prof in targets:
+                # three-fold profiles define their overall height / width through the centroid, not the bounding box;
+                # the out profile object is reused by later solves: its earlier query positions are queried again
+                now = {}
+                for clause, what in _chord_problems(prof, n=61, bound_by_hooks=not ps["three"], used=now,
+                                                    again=out_positions if name == "out profile" else None):
+                    probs.append((pre + "pass-profile-chord-" + clause, f"{when}, {name}: {what}"))
+                if name == "out profile":
+                    out_positions = now
+        except Exception as ex:
+            if _impl_raised(ex):
+                probs.append((pre + "pass-hook-raises", f"{when}: {type(ex).__name__}: {ex}"))
+                return probs
+            raise
+        if probs:
+            return probs
+    return probs
+
+
+def _run_resolve_passes(ctx):
+    rng = ctx.rng
+    for i in range(ctx.budget(16, 300)):
+        three = i % 4 == 3
+        ps = _pass_spec(rng, three)
+        ps["profile_hooks"] = _rand_profile_hooks(rng, PROFILE_HOOK_MODES[(i // 2) % 5]) if i % 2 else {}
+        if i % 5 == 4:
+            ps["hooks"] = {"spread": ("draught-power", rng.uniform(-0.9, -0.1))}
+        steps = []
+        for k in range(rng.randrange(2, 4)):
+            steps.append({"in_kind": rng.choice(["round", "square", "box", "diamond"]) if not three else "round",
+                          "in_size": 30e-3 * ps["scale"] * rng.uniform(0.85, 1.05),
+                          # later solves: another gap (larger and smaller), or the same pass with another incoming profile
+                          "gapf": None if (k == 0 or rng.random() < 0.25) else rng.uniform(0.3, 3.5),
+                          "pre_sample": rng.random() < 0.3})
+        order = list(PASS_HOOKS)
+        rng.shuffle(order)
+        spec = {"kind": "resolve-pass", "pass": ps, "steps": steps, "order": order}
+        probs = _resolve_problems(spec)
+        if probs is None:
+            ctx.count("resolve-pass:not-solvable")
+            continue
+        ctx.case(["resolve-pass", three, ps["groove"], round(ps["scale"], 6), [round(s_["in_size"], 9) for s_ in steps],
+                  [s_["gapf"] and round(s_["gapf"], 6) for s_ in steps]], nontrivial=True)
+        ctx.count("resolve-pass:" + ("three-roll" if three else "two-roll"))
+        ctx.count("resolve-pass:solves=%d" % len(steps))
+        seen = set()
+        for key, what in probs:
+            if key not in seen:
+                seen.add(key)
+                ctx.violation(key, what, spec)
 
 
 def replay(ctx, data):
@@ -465,6 +1019,14 @@ def replay(ctx, data):
     elif kind == "stub-pass":
         r["pass"]["hooks"] = {k: tuple(v) for k, v in r["pass"].get("hooks", {}).items()}
         probs = _stub_problems(r) or []
+    elif kind == "stress":
+        probs = _stress_problems(r)
+    elif kind == "rectangle":
+        probs = _rect_problems(r)
+    elif kind == "chord-history":
+        probs = _history_problems(r)
+    elif kind == "resolve-pass":
+        probs = _resolve_problems(r) or []
     else:
         raise NotImplementedError("replay of this kind of case: re-run ./check C17 with the recorded seed")
     for key, what in probs:
@@ -489,6 +1051,15 @@ def run(ctx):
         stub.formula_correspondence(ctx, MODEL, found, _sampler, n_each=ctx.budget(8, 200))
         # ... and every ALTERNATIVE (guarded branch / `return None`) under a stub state satisfying its path condition
         c17_alts.alt_correspondence(ctx, MODEL, found, _sampler, n_each=ctx.budget(4, 60))
+        # ... and the geometric items (chord methods, rectangle, equivalent_rectangle) on real profiles / polygons
+        if getattr(ctx, "c17_geo", None):
+            profs = []
+            for _ in range(ctx.budget(8, 120)):
+                try:
+                    profs.append(_shape_profile(_rand_shape_spec(rng, math.exp(rng.uniform(-5, 1)))))
+                except (ValueError, RuntimeError):
+                    pass
+            c17_geo.geo_correspondence(ctx, MODEL, ctx.c17_geo, profs, n_pos=ctx.budget(4, 10), n_rect=ctx.budget(30, 400))
     elif not ctx.extended:
         for what in getattr(ctx, "c17_changed", []):
             ctx.tie_breaks.append("source item behind the failing obligation: " + what)
@@ -619,6 +1190,8 @@ def run(ctx):
 
     # ---- (c) thermal identities on real Roll and Profile objects, every read order ------------------
     _run_thermal(ctx)
+    # ---- (c3) stress identities at every level (unit), values or hook functions -----------------------
+    _run_stress(ctx)
 
     # ---- (d) solved roll passes: coefficient identities ---------------------------------------------
     from .common import solved_passes
@@ -662,3 +1235,10 @@ def run(ctx):
     # ---- (e) coefficient links on passes with overridden / explicitly supplied coefficients -----------
     _run_override_passes(ctx)
     _run_stub_passes(ctx)
+
+    # ---- (b3) equivalent rectangle / radius with given width / height ------------------------------------------------
+    _run_rect(ctx)
+
+    # ---- (f) used objects: profiles and passes with a history ----------------------------------------------------------
+    _run_chord_histories(ctx)
+    _run_resolve_passes(ctx)
